@@ -1,10 +1,138 @@
-(* C18 — anti-entropy digests (first stage: the code before the repair of the digest order). *)
+(* C18 — Anti-entropy: equal digests iff equal states; a sync leaves both sides merged.
+   This file holds only the property statements; proofs live in Proofs/DigestProofs.v.
+   Model: Model/Digest.v (anti_entropy.rs after the repair recorded as
+   fixed:C18-digest-order, run_anti_entropy_sync of simulator/multi_node.rs).
+   [h] is the hash function (the implementation: SipHash-1-3, Lib/SipHash.v); a replica
+   state is the list of its entries in an arbitrary iteration order. *)
 From stdpp Require Import gmap.
-From RV Require Import Lib.Hex Lib.SipHash Lib.SipHashFast Model.Crdt Model.Digest Proofs.DigestProofs.
+From Coq Require Import NArith.
+From RV Require Import Lib.Hex Lib.SipHash Lib.SipHashFast Model.Crdt Model.Digest
+  Proofs.CrdtProofs Proofs.DigestProofs.
+Local Open Scope N_scope.
 
-(* The digest depends on the iteration order of the map: the same entries in two orders
-   are reported divergent. *)
-Theorem C18_digest_perm_refuted : exists l1 l2 : list (list N * rvalue),
-  l1 ≡ₚ l2 /\ differs (from_state sip13f 0 l1) (from_state sip13f 0 l2) = true.
-Proof. exact (ex_intro _ perm_wit_1 (ex_intro _ perm_wit_2 digest_perm_witness)). Qed.
-Print Assumptions C18_digest_perm_refuted.
+(* ---- never a perpetual false "divergent": the digest does not depend on the order in
+   which keys were inserted or are iterated, for every hash function ---- *)
+Theorem C18_digest_perm_invariant :
+  forall (h : list N -> N) (depth : N) (l1 l2 : list (list N * rvalue)),
+  l1 ≡ₚ l2 -> from_state h depth l1 = from_state h depth l2.
+Proof. exact from_state_perm. Qed.
+Print Assumptions C18_digest_perm_invariant.
+
+Theorem C18_equal_state_equal_digest :
+  forall (h : list N -> N) (depth : N) (m : gmap (list N) rvalue)
+         (la lb : list (list N * rvalue)),
+  la ≡ₚ map_to_list m -> lb ≡ₚ map_to_list m ->
+  from_state h depth la = from_state h depth lb /\
+  differs (from_state h depth la) (from_state h depth lb) = false.
+Proof. exact from_state_same_map. Qed.
+Print Assumptions C18_equal_state_equal_digest.
+
+(* ---- never a false "in sync", for values the value hash covers and a hash without
+   collisions (and without the value 0) on the finite set of inputs of the two digest
+   computations ---- *)
+Theorem C18_equal_digest_equal_state :
+  forall (h : list N -> N) (depth : N) (l1 l2 : list (list N * rvalue)),
+  HashOK h (hash_inputs h depth l1 ++ hash_inputs h depth l2) ->
+  Forall (fun e => DigestVisible e.2) l1 -> Forall (fun e => DigestVisible e.2) l2 ->
+  sd_root (from_state h depth l1) = sd_root (from_state h depth l2) ->
+  l1 ≡ₚ l2.
+Proof. exact equal_digest_equal_state_lemma. Qed.
+Print Assumptions C18_equal_digest_equal_state.
+
+Theorem C18_different_state_different_digest :
+  forall (h : list N -> N) (depth : N) (l1 l2 : list (list N * rvalue)),
+  HashOK h (hash_inputs h depth l1 ++ hash_inputs h depth l2) ->
+  Forall (fun e => DigestVisible e.2) l1 -> Forall (fun e => DigestVisible e.2) l2 ->
+  ~ l1 ≡ₚ l2 ->
+  differs (from_state h depth l1) (from_state h depth l2) = true.
+Proof. exact visible_states_differ. Qed.
+Print Assumptions C18_different_state_different_digest.
+
+(* Known finding C18-digest-blind: outside DigestVisible the statement is false for every
+   hash function.  A = merge of two HSETs, B = the later HSET only. *)
+Theorem C18_hash_fields_invisible_refuted : exists (la lb : list (list N * rvalue)) k a b,
+  la = [(k, a)] /\ lb = [(k, b)] /\ obs a <> obs b /\ DigestBlind a /\ DigestBlind b /\
+  forall (h : list N -> N) (depth : N),
+    from_state h depth la = from_state h depth lb /\
+    differs (from_state h depth la) (from_state h depth lb) = false.
+Proof.
+  exact (ex_intro _ blind_a (ex_intro _ blind_b (ex_intro _ [107] (ex_intro _ (rv_merge blind_x blind_y)
+        (ex_intro _ blind_y (conj eq_refl (conj eq_refl blind_witness))))))).
+Qed.
+Print Assumptions C18_hash_fields_invisible_refuted.
+
+(* ---- one digest-driven round (run_anti_entropy_sync) whose per-round limit covers the
+   keys each side holds in the divergent buckets: both sides hold the merge of their prior
+   values for every key of those buckets, other keys are untouched; if values under one
+   key are Compatible (C07) the two sides then agree on those buckets and the next digest
+   exchange, in whatever order the maps are then iterated, finds no divergence ---- *)
+Theorem C18_sync_round_merges :
+  forall (h : list N -> N) (depth : N) (limit : nat) (la lb : list (list N * rvalue)),
+  NoDup (la.*1) -> NoDup (lb.*1) ->
+  let A : gmap (list N) rvalue := list_to_map la in
+  let B : gmap (list N) rvalue := list_to_map lb in
+  let dv := divergent_buckets (from_state h depth la) (from_state h depth lb) in
+  differs (from_state h depth la) (from_state h depth lb) = true ->
+  (length (filter (in_buckets h depth dv) la) <= limit)%nat ->
+  (length (filter (in_buckets h depth dv) lb) <= limit)%nat ->
+  let A' := (sync_round h depth limit la lb).1 in
+  let B' := (sync_round h depth limit la lb).2 in
+  (forall k, key_bucket h depth k ∈ dv ->
+     A' !! k = union_with (fun a b => Some (rv_merge a b)) (A !! k) (B !! k) /\
+     B' !! k = union_with (fun a b => Some (rv_merge a b)) (B !! k) (A !! k)) /\
+  (forall k, key_bucket h depth k ∉ dv -> A' !! k = A !! k /\ B' !! k = B !! k) /\
+  ((forall k a b, A !! k = Some a -> B !! k = Some b -> Compatible a b) ->
+   (forall k, key_bucket h depth k ∈ dv -> A' !! k = B' !! k) /\
+   forall la' lb', la' ≡ₚ map_to_list A' -> lb' ≡ₚ map_to_list B' ->
+     from_state h depth la' = from_state h depth lb' /\
+     differs (from_state h depth la') (from_state h depth lb') = false /\
+     divergent_buckets (from_state h depth la') (from_state h depth lb') = []).
+Proof. exact sync_round_merges_lemma. Qed.
+Print Assumptions C18_sync_round_merges.
+
+(* Known finding C18-limit-starvation: with a limit that does not cover the divergent
+   keys and an iteration order that is a function of the map, the same first `limit`
+   keys are sent on every round; the other key never arrives, for any number of rounds. *)
+Theorem C18_limit_starvation_refuted :
+  exists (depth : N) (limit : nat) (A B : gmap (list N) rvalue) (k : list N) (v : rvalue),
+  ShortLimit sip13f depth limit (map_to_list A) (map_to_list B) /\
+  (forall a b, A !! a = Some b -> DigestVisible b) /\
+  forall n, let s := sync_rounds map_to_list sip13f depth limit n (A, B) in
+    differs (from_state sip13f depth (map_to_list s.1))
+            (from_state sip13f depth (map_to_list s.2)) = true /\
+    s.1 !! k = Some v /\ s.2 !! k = None.
+Proof.
+  exact (ex_intro _ 0 (ex_intro _ 1%nat (ex_intro _ starve_A (ex_intro _ starve_B
+        (ex_intro _ [107;50] (ex_intro _ (lwwv [98] 2 1) starve_witness)))))).
+Qed.
+Print Assumptions C18_limit_starvation_refuted.
+
+(* ---- the executable shortcuts of the model are the functions they stand for ---- *)
+Theorem C18_model_shortcuts :
+  (forall b, sip13f b = sip13 b) /\ (forall x, le64f x = le64 x) /\
+  (forall depth x, low_bits depth x = x mod 2 ^ depth) /\
+  (forall h depth k v, bucket_of depth (key_digest h k v) = key_bucket h depth k).
+Proof. exact (conj sip13f_eq (conj le64f_eq (conj low_bits_mod key_bucket_digest))). Qed.
+Print Assumptions C18_model_shortcuts.
+
+(* ---- the hypotheses are satisfiable by concrete non-trivial instances ---- *)
+Example C18_digest_nonvacuous : exists l1 l2 l3 : list (list N * rvalue),
+  l1 <> l2 /\
+  HashOK sip13f (hash_inputs sip13f 1 l1 ++ hash_inputs sip13f 1 l2) /\
+  HashOK sip13f (hash_inputs sip13f 1 l1 ++ hash_inputs sip13f 1 l3) /\
+  Forall (fun e => DigestVisible e.2) l1 /\ Forall (fun e => DigestVisible e.2) l2 /\
+  Forall (fun e => DigestVisible e.2) l3 /\
+  sd_root (from_state sip13f 1 l1) = sd_root (from_state sip13f 1 l2) /\
+  differs (from_state sip13f 1 l1) (from_state sip13f 1 l3) = true.
+Proof. exact (ex_intro _ ex_l1 (ex_intro _ ex_l2 (ex_intro _ ex_l3 ex_hash_ok))). Qed.
+Print Assumptions C18_digest_nonvacuous.
+
+Example C18_sync_nonvacuous : exists la lb : list (list N * rvalue),
+  NoDup (la.*1) /\ NoDup (lb.*1) /\
+  differs (from_state sip13f 1 la) (from_state sip13f 1 lb) = true /\
+  Covering sip13f 1 2 la lb /\
+  (forall k a b, (list_to_map la : gmap (list N) rvalue) !! k = Some a ->
+                 (list_to_map lb : gmap (list N) rvalue) !! k = Some b -> Compatible a b) /\
+  (sync_round sip13f 1 2 la lb).1 <> list_to_map la.
+Proof. exact (ex_intro _ ex_sa (ex_intro _ ex_sb ex_sync_hyps)). Qed.
+Print Assumptions C18_sync_nonvacuous.
